@@ -1,5 +1,6 @@
 import Driver.Util
 import DispatchVerif.Core.Time
+import DispatchVerif.Core.TimeE
 import DispatchVerif.Core.Base64P
 import DispatchVerif.Core.Base32P
 import DispatchVerif.Core.Base32HexP
@@ -245,6 +246,10 @@ def handle (line : String) : String :=
   | ["TO", w, nu, nm, nw] =>
     match w.toNat?, nu.toNat?, nm.toNat?, nw.toNat? with
     | some w, some a, some b, some c => toString (TimeP.timeout w a b c)
+    | _, _, _, _ => "bad-op"
+  | ["TE", w, nu, nm, nw] =>
+    match w.toNat?, nu.toNat?, nm.toNat?, nw.toNat? with
+    | some w, some a, some b, some c => toString (TimeP.sinceEpoch w a b c)
     | _, _, _, _ => "bad-op"
   | ["X2", fi, fo, spec] => transform fi fo spec
   | "X" :: toks => runData toks
